@@ -940,3 +940,80 @@ func OneShot(p *core.Prog, r *core.Report) {
 		r.Bad(rule, "AgainstSchema:error", p.Pos(f.Pos()), "the error returned by AgainstSchema is not exactly the composite of the errors of the underlying result (nil iff none)")
 	}
 }
+
+// KeywordPosition — KEYWORD-POSITION: the four outer validators (schema, parameter, header, items) build the same
+// keyword groups through the same constructors; a keyword must arrive at the same parameter position of a
+// constructor from every outer validator (sibling agreement). Two keywords crossed at one call site (maximum's
+// exclusivity handed in as the minimum's) still "reach a field that is read", but mean something else there.
+func KeywordPosition(p *core.Prog, r *core.Report) {
+	const rule = "KEYWORD-POSITION"
+	kw := map[string]bool{}
+	for _, k := range schemaKeywords {
+		kw[k] = true
+	}
+	pi := discoverPools(p)
+	ctors := ctorsOf(p, pi)
+	type use struct {
+		call *ssa.Call
+		kw   string
+		fn   string
+	}
+	at := map[string][]use{} // "<ctor>#<pos>"
+	for _, f := range p.Funcs {
+		if !p.InSubject(f) {
+			continue
+		}
+		core.EachInstr(f, func(i ssa.Instruction) {
+			c, ok := i.(*ssa.Call)
+			if !ok {
+				return
+			}
+			g := core.StaticCallee(c)
+			if g == nil || ctors[g] == nil {
+				return
+			}
+			for k, a := range c.Call.Args {
+				pth, ok := core.StablePath(a)
+				if !ok {
+					continue
+				}
+				name := pth[strings.LastIndex(pth, ".")+1:]
+				if !kw[name] {
+					continue
+				}
+				key := fmt.Sprintf("%s#%d", g.Name(), k)
+				at[key] = append(at[key], use{c, name, core.FuncName(f)})
+			}
+		})
+	}
+	var keys []string
+	for k := range at {
+		keys = append(keys, k)
+	}
+	sort.Strings(keys)
+	n := 0
+	for _, key := range keys {
+		uses := at[key]
+		count := map[string]int{}
+		for _, u := range uses {
+			count[u.kw]++
+		}
+		major, best := "", 0
+		for k, c := range count {
+			if c > best || (c == best && k < major) {
+				major, best = k, c
+			}
+		}
+		for _, u := range uses {
+			n++
+			okey := key + ":" + u.fn
+			if u.kw != major {
+				r.Bad(rule, okey, p.Pos(u.call.Pos()), fmt.Sprintf("this call hands the keyword %s to position %s, where the %d sibling validators hand %s: the constraint is applied with the meaning of another keyword", u.kw, key, best, major))
+			} else {
+				r.OK(rule, okey, p.Pos(u.call.Pos()), "same keyword ("+major+") at this position as in the sibling validators")
+			}
+		}
+	}
+	r.Count("keyword_positions", n)
+	r.Floor("keyword_positions", 40)
+}
